@@ -114,6 +114,14 @@ def run_kernel_item(item):
         if item.get('contracts'):
             from llsym import contracts
             out['contracts'] = contracts.install(eng)
+        if item.get('ldt_contracts'):
+            from llsym import contracts
+            out['contracts'] = out.get('contracts', []) + contracts.install_ldt(eng)
+        if item.get('year_contract'):
+            from llsym import contracts
+            y, lo, hi = item['year_contract']
+            eng.intercepts[contracts.LD_FOR_EPOCH_SECONDS] = contracts.year_contract(y, lo, hi)
+            eng.resolve_bools = True
         leaves = eng.run(item['entry'], list(item['args']))
         out['paths'] = len(leaves)
         out['steps'] = sum(l.steps for l in leaves)
